@@ -79,6 +79,12 @@ type Config struct {
 	Stick    float64 // probability to keep running the last task when it is ready
 	BgWeight float64 // relative weight of background (engine) goroutines; 1 = same as tasks
 	MaxSteps int     // hard cap on scheduling steps (0 = default)
+	// Starve > 0: at each pick, with this probability, one runnable harness task is
+	// set aside for up to StarveLen picks (it still runs when nothing else can), so
+	// that another task can get through a long stretch of engine code (a whole
+	// Begin..Commit) while the starved one sits right behind a wake-up.
+	Starve    float64
+	StarveLen int
 	Replay   []string // recorded task choices; when set, choices follow the recording
 	// ReplayLoose: when a recorded choice is not available fall back to the default
 	// policy (continue last task, else lowest name) instead of failing.
@@ -100,6 +106,11 @@ type Sched struct {
 	steps   int
 	seq     uint64
 	sinceHarness int
+	starved      *task
+	starveLeft   int
+	Starved      int // number of starvation episodes started
+	starveUntil    string
+	StarveReleased int // episodes ended by the targeted release
 
 	// statistics
 	Switches int
@@ -370,7 +381,95 @@ func (s *Sched) defaultPick(cands []*task) *task {
 	return cands[0]
 }
 
+// Tune changes the scheduling policy of a running scheduler (called by a task
+// that draws its configuration inside the simulated program).
+func (s *Sched) Tune(stick, bgWeight, starve float64, starveLen int) {
+	s.mu.Lock()
+	defer s.mu.Unlock()
+	s.cfg.Stick, s.cfg.Starve, s.cfg.StarveLen = stick, starve, starveLen
+	if bgWeight > 0 {
+		s.cfg.BgWeight = bgWeight
+	}
+}
+
 func (s *Sched) randomPick(cands []*task) *task {
+	if s.cfg.Starve > 0 {
+		// a task that has just been woken from a condition wait is the classic victim:
+		// the OS may run it arbitrarily late, after the condition stopped holding again
+		if s.starveLeft == 0 && len(cands) > 1 {
+			var woken []*task
+			for _, c := range cands {
+				if c.harness && c.point == "cond:wake" && c != s.starved {
+					woken = append(woken, c)
+				}
+			}
+			if len(woken) > 0 && s.rng.Chance(0.5) {
+				s.starved = woken[s.rng.Intn(len(woken))]
+				s.starveLeft = 1 + s.rng.Intn(400)
+				s.starveUntil = ""
+				if s.rng.Chance(0.7) {
+					// release when some other task reaches one of the yield points seen so far
+					var pts []string
+					for p := range s.PointCnt {
+						if enginePoint(p) && p != "cond:wake" {
+							pts = append(pts, p)
+						}
+					}
+					sort.Strings(pts)
+					if len(pts) > 0 {
+						s.starveUntil = pts[s.rng.Intn(len(pts))]
+					}
+				}
+				s.Starved++
+			}
+		}
+		if s.starveLeft == 0 && len(cands) > 1 && s.rng.Chance(s.cfg.Starve) {
+			var hs []*task
+			for _, c := range cands {
+				if c.harness {
+					hs = append(hs, c)
+				}
+			}
+			if len(hs) > 0 {
+				n := s.cfg.StarveLen
+				if n <= 0 {
+					n = 40
+				}
+				s.starved = hs[s.rng.Intn(len(hs))]
+				s.starveLeft = 1 + s.rng.Intn(n)
+				s.Starved++
+			}
+		}
+		if s.starveLeft > 0 && s.starveUntil != "" {
+			// targeted release: the starved task runs as soon as another task is
+			// parked at the chosen yield point
+			hit, in := false, false
+			for _, c := range cands {
+				if c == s.starved {
+					in = true
+				} else if c.point == s.starveUntil {
+					hit = true
+				}
+			}
+			if hit && in {
+				s.starveLeft, s.starveUntil = 0, ""
+				s.StarveReleased++
+				return s.starved
+			}
+		}
+		if s.starveLeft > 0 {
+			s.starveLeft--
+			var rest []*task
+			for _, c := range cands {
+				if c != s.starved {
+					rest = append(rest, c)
+				}
+			}
+			if len(rest) > 0 {
+				cands = rest
+			}
+		}
+	}
 	if len(cands) == 1 {
 		// still draw, so that the PRNG stream does not depend on candidate counts only
 		s.rng.Uint64()
